@@ -4,6 +4,9 @@
 // Sleep requests captured by the clock are the throttling waits (the clock does NOT advance on Sleep:
 // arrival times are the scenario's).  Every request that selects a value is also issued, at the same
 // instant, on a "solo" resource carrying the same rule that only ever sees that value (Independence).
+// Op "flood" {t, n, prefix, args, atts}: n requests (batch 1) with n FRESH distinct values of the trace's argument
+// type - never used before or afterwards in the trace - each placed where the template (args / atts with the
+// placeholder "*") puts the selected argument; ONE summary record: how many were admitted, total Sleep.
 // The recorded trace is validated against spec/HotParamQps_Trace.tla.
 //
 // usage: c05 <scenarios.ndjson> <trace.ndjson>
@@ -23,8 +26,60 @@ import (
 )
 
 type run struct {
-	tr  int64
-	tab *hpx.Table
+	tr    int64
+	tab   *hpx.Table
+	fresh int // fresh values handed out so far (flood)
+}
+
+// next fresh value: distinct from every value of the table (small numbers, "v_<name>") and from every earlier one
+func (r *run) freshValue(prefix string) interface{} {
+	r.fresh++
+	i := 1000000 + r.fresh
+	ty := r.tab.Ty
+	if ty == "mix" {
+		ty = []string{"int", "string", "bool", "float", "struct", "int64"}[r.fresh%6]
+	}
+	switch ty {
+	case "int":
+		return i
+	case "int64":
+		return int64(i)
+	case "string":
+		return fmt.Sprintf("%s_%d", prefix, i)
+	case "bool":
+		return uint32(i) // (the table also leaves the two booleans after two values)
+	case "float":
+		return float64(i) + 0.25
+	}
+	return hpx.P{N: i, S: prefix}
+}
+
+// the entry options of a flood request: the template with the placeholder "*" replaced by the fresh value
+func (r *run) floodOpts(args []interface{}, atts map[string]interface{}, v interface{}) []api.EntryOption {
+	var o []api.EntryOption
+	if len(args) > 0 {
+		a := make([]interface{}, len(args))
+		for i, x := range args {
+			if x.(string) == "*" {
+				a[i] = v
+			} else {
+				a[i] = r.tab.V(x.(string))
+			}
+		}
+		o = append(o, api.WithArgs(a...))
+	}
+	if len(atts) > 0 {
+		m := make(map[interface{}]interface{}, len(atts))
+		for k, x := range atts {
+			if x.(string) == "*" {
+				m[k] = v
+			} else {
+				m[k] = r.tab.V(x.(string))
+			}
+		}
+		o = append(o, api.WithAttachments(m))
+	}
+	return append(o, api.WithBatchCount(1))
 }
 
 func (r *run) main() string         { return fmt.Sprintf("c05_%d_m", r.tr) }
@@ -105,7 +160,7 @@ func main() {
 			if got := len(hotspot.GetRules()); got != len(rules) {
 				hx.Fatal("trace %d: %d of %d rules accepted", r.tr, got, len(rules))
 			}
-			tr.Emit(hx.M{"op": "new", "tr": r.tr, "ty": r.tab.Ty, "cf": cf, "idx": hx.Int(s, "idx"), "key": hx.Str(s, "key")})
+			tr.Emit(hx.M{"op": "new", "tr": r.tr, "ty": r.tab.Ty, "cf": cf, "idx": hx.Int(s, "idx"), "key": hx.Str(s, "key"), "pcap": pcap})
 		case "req":
 			t, b, v := hx.Int(s, "t"), hx.Int(s, "b"), hx.Str(s, "v")
 			clk.SetMs(base0 + t)
@@ -136,6 +191,32 @@ func main() {
 				if sp {
 					rec["panic"] = true
 				}
+			}
+			tr.Emit(rec)
+		case "flood":
+			t, n := hx.Int(s, "t"), hx.Int(s, "n")
+			clk.SetMs(base0 + t)
+			args, _ := s["args"].([]interface{})
+			atts, _ := s["atts"].(map[string]interface{})
+			if args == nil {
+				args = []interface{}{}
+			}
+			if atts == nil {
+				atts = map[string]interface{}{}
+			}
+			var adm, wait int64
+			panicked := false
+			for i := int64(0); i < n; i++ {
+				ok, w, p := request(clk, r.main(), r.floodOpts(args, atts, r.freshValue(hx.Str(s, "prefix"))))
+				if ok {
+					adm++
+				}
+				wait += w
+				panicked = panicked || p
+			}
+			rec := hx.M{"op": "flood", "t": t, "n": n, "args": args, "atts": atts, "adm": adm, "wait": wait}
+			if panicked {
+				rec["panic"] = true
 			}
 			tr.Emit(rec)
 		default:
